@@ -8,8 +8,8 @@ Import ListNotations.
 From VTL Require Import Base.Val Model.Table Model.Scalar Model.Expr Model.SetOps
      Proofs.TableP Proofs.MonadP Proofs.ExprP Proofs.SetOpsP Proofs.PermP.
 
-(* every expression built from dataset∘dataset operators, element-wise operators and the clauses filter / calc / keep /
-   drop / rename: if the environments hold the same datapoints in any order, evaluation succeeds on both or neither and
+(* every expression built from dataset∘dataset operators, the set operators union / intersect / setdiff / symdiff (DSet, with
+   the second operand aligned by name), element-wise operators and the clauses filter / calc / keep / drop / rename: if the environments hold the same datapoints in any order, evaluation succeeds on both or neither and
    the results hold the same datapoints; arbitrary nesting depth, datapoint counts and component counts *)
 Theorem C33_expression_order_independent : forall x, no_sub x = true ->
   forall e e' r, env_equiv e e' -> deval e x = Ok r ->
@@ -39,7 +39,8 @@ Proof. split; [exact union_perm|]. split; [exact intersect_perm|]. split; [exact
 Example C33_nonvacuous :
   let A := mkD ["Id_1"%string] ["Me_1"%string] [([VInt 1], [VInt 6]); ([VInt 2], [VInt 5])] in
   let A' := mkD ["Id_1"%string] ["Me_1"%string] [([VInt 2], [VInt 5]); ([VInt 1], [VInt 6])] in
-  env_equiv [("A"%string, A)] [("A"%string, A')] /\ no_sub (DBin Add (DVar "A") (DFilter (DVar "A") (CLit (VBool true)))) = true.
+  env_equiv [("A"%string, A)] [("A"%string, A')] /\
+  no_sub (DBin Add (DVar "A") (DFilter (DSet OSymdiff (DVar "A") (DSet OUnion (DVar "A") (DVar "A"))) (CLit (VBool true)))) = true.
 Proof.
   split; [|reflexivity]. intros n. simpl. destruct (String.eqb n "A"); [|exact I].
   split; [|reflexivity]. repeat split; simpl; auto. apply perm_swap.
